@@ -322,51 +322,114 @@ Definition allowed (name : string) : list owner :=
   else [].   (* explain discover diag inspect reference: nothing *)
 
 (* ---------------------------------------------------------------- the write sites the model accounts for *)
-Definition W f fn k m g (o : owner) : wsite * owner :=
-  ({| ws_file := f; ws_func := fn; ws_kind := k; ws_mode := m; ws_guards := g |}, o).
+Definition W f fn k m g t (o : owner) : wsite * owner :=
+  ({| ws_file := f; ws_func := fn; ws_kind := k; ws_mode := m; ws_guards := g; ws_target := t |}, o).
 
+(* one entry per write-capable call site: file, function, kind, mode, enclosing if/try guards, and WHERE it writes
+   (the path expression(s) followed by every assignment, inside that function, to a name they depend on) *)
 Definition accounted : list (wsite * owner) := [
-  (* report *)
-  W "report.py" "write_summary_file_vue" "path.write_text" "" ["not embedded_html"] OReport;
-  W "report.py" "write_summary_file_vue" "path.write_text" "" [] OReport;
-  W "commands/run.py" "cmd_run" "makedirs" ""
-    ["not (output_format == 'json')"; "not (output_format == 'markdown')";
-     "not (output_format == 'summary' or args.summary)"; "not (args.output)"] OOutDir;
-  (* CSV -> .rules migration *)
-  W "cli.py" "_migrate_csv_to_rules" "open" "w" [] OMigrate;
-  W "cli.py" "_migrate_csv_to_rules" "shutil.move" "" ["backup and os.path.exists(csv_file)"] OMigrate;
+  W "_version.py" "download_file" "open" "wb"
+    ["try: except Exception"]
+    ["dest_path"] OSelfUpdate;
+  W "_version.py" "perform_update" "dynamic.import" ""
+    []
+    ["'sys'"] OSelfUpdate;
+  W "_version.py" "perform_update" "tempfile.TemporaryDirectory" ""
+    ["try: except PermissionError, Exception"]
+    [] OSelfUpdate;
+  W "_version.py" "perform_update" "archive.extractall" ""
+    ["try: except PermissionError, Exception"]
+    ["zf"; "temp_path"; "temp_path = Path(temp_dir)"] OSelfUpdate;
+  W "_version.py" "perform_update" "chmod" ""
+    ["try: except PermissionError, Exception"; "system != 'windows'"]
+    ["new_binary"; "system = plat.system().lower()"; "binary_name = 'tally.exe' if system == 'windows' else 'tally'"; "temp_path = Path(temp_dir)"; "new_binary = temp_path / binary_name"] OSelfUpdate;
+  W "_version.py" "perform_update" "mkdir" ""
+    ["try: except PermissionError, Exception"]
+    ["install_path.parent"; "install_path = get_executable_path() or get_install_path()"; "install_path = Path(install_path)"] OSelfUpdate;
+  W "_version.py" "perform_update" "shutil.copy2" ""
+    ["try: except PermissionError, Exception"; "install_path.exists()"]
+    ["install_path"; "backup_path"; "install_path = get_executable_path() or get_install_path()"; "install_path = Path(install_path)"; "system = plat.system().lower()"; "backup_path = install_path.with_suffix('.bak' if system != 'windows' else '.exe.bak')"] OSelfUpdate;
+  W "_version.py" "perform_update" "unlink" ""
+    ["try: except PermissionError, Exception"; "system == 'windows'"; "install_path.exists()"; "try: except BaseException"]
+    ["old_path"; "install_path = get_executable_path() or get_install_path()"; "install_path = Path(install_path)"; "old_path = install_path.with_name('tally.old.exe')"] OSelfUpdate;
+  W "_version.py" "perform_update" "rename" ""
+    ["try: except PermissionError, Exception"; "system == 'windows'"; "install_path.exists()"]
+    ["install_path"; "old_path"; "install_path = get_executable_path() or get_install_path()"; "install_path = Path(install_path)"; "old_path = install_path.with_name('tally.old.exe')"] OSelfUpdate;
+  W "_version.py" "perform_update" "shutil.copy2" ""
+    ["try: except PermissionError, Exception"; "system == 'windows'"]
+    ["new_binary"; "install_path"; "install_path = get_executable_path() or get_install_path()"; "install_path = Path(install_path)"; "system = plat.system().lower()"; "binary_name = 'tally.exe' if system == 'windows' else 'tally'"; "temp_path = Path(temp_dir)"; "new_binary = temp_path / binary_name"] OSelfUpdate;
+  W "_version.py" "perform_update" "shutil.copy2" ""
+    ["try: except PermissionError, Exception"; "not (system == 'windows')"]
+    ["new_binary"; "install_path"; "install_path = get_executable_path() or get_install_path()"; "install_path = Path(install_path)"; "system = plat.system().lower()"; "binary_name = 'tally.exe' if system == 'windows' else 'tally'"; "temp_path = Path(temp_dir)"; "new_binary = temp_path / binary_name"] OSelfUpdate;
+  W "cli.py" "_migrate_csv_to_rules" "open" "w"
+    ["try: except Exception"]
+    ["new_file"; "new_file = os.path.join(config_dir, 'merchants.rules')"] OMigrate;
+  W "cli.py" "_migrate_csv_to_rules" "shutil.move" ""
+    ["try: except Exception"; "backup and os.path.exists(csv_file)"]
+    ["csv_file"; "csv_file + '.bak'"] OMigrate;
   W "cli.py" "_migrate_csv_to_rules" "open" "a"
-    ["os.path.exists(settings_path)"; "'merchants_file:' not in content"] OMigrate;
-  (* init *)
-  W "cli.py" "init_config" "makedirs" "" [] OInitDirs;
-  W "cli.py" "init_config" "open" "w" ["not os.path.exists(settings_path)"] OInitStarter;
-  W "cli.py" "init_config" "open" "w" ["not os.path.exists(merchants_path)"] OInitStarter;
-  W "cli.py" "init_config" "open" "w" ["not os.path.exists(sections_path)"] OInitStarter;
-  W "cli.py" "init_config" "open" "w" ["not os.path.exists(gitignore_path)"] OInitStarter;
+    ["try: except Exception"; "os.path.exists(settings_path)"; "'merchants_file:' not in content"]
+    ["settings_path"; "settings_path = os.path.join(config_dir, 'settings.yaml')"] OMigrate;
+  W "cli.py" "migrate_v0_to_v1" "makedirs" ""
+    ["try: except (OSError, shutil.Error)"]
+    ["tally_dir"; "tally_dir = os.path.abspath('tally')"] OLayout;
+  W "cli.py" "migrate_v0_to_v1" "shutil.move" ""
+    ["try: except (OSError, shutil.Error)"]
+    ["old_config_dir"; "new_config"; "tally_dir = os.path.abspath('tally')"; "new_config = os.path.join(tally_dir, 'config')"] OLayout;
+  W "cli.py" "migrate_v0_to_v1" "shutil.move" ""
+    ["try: except (OSError, shutil.Error)"; "os.path.isdir(old_path)"]
+    ["old_path"; "new_path"; "tally_dir = os.path.abspath('tally')"; "old_path = os.path.abspath(subdir)"; "new_path = os.path.join(tally_dir, subdir)"] OLayout;
+  W "cli.py" "migrate_v0_to_v1" "open" "w"
+    ["try: except (OSError, shutil.Error)"]
+    ["schema_file"; "tally_dir = os.path.abspath('tally')"; "new_config = os.path.join(tally_dir, 'config')"; "schema_file = os.path.join(new_config, '.tally-schema')"] OLayout;
+  W "cli.py" "init_config" "makedirs" ""
+    []
+    ["config_dir"; "config_dir = os.path.join(target_dir, 'config')"] OInitDirs;
+  W "cli.py" "init_config" "makedirs" ""
+    []
+    ["data_dir"; "data_dir = os.path.join(target_dir, 'data')"] OInitDirs;
+  W "cli.py" "init_config" "makedirs" ""
+    []
+    ["output_dir"; "output_dir = os.path.join(target_dir, 'output')"] OInitDirs;
+  W "cli.py" "init_config" "open" "w"
+    ["not os.path.exists(settings_path)"]
+    ["settings_path"; "config_dir = os.path.join(target_dir, 'config')"; "settings_path = os.path.join(config_dir, 'settings.yaml')"] OInitStarter;
+  W "cli.py" "init_config" "open" "w"
+    ["not os.path.exists(merchants_path)"]
+    ["merchants_path"; "config_dir = os.path.join(target_dir, 'config')"; "merchants_path = os.path.join(config_dir, 'merchants.rules')"] OInitStarter;
+  W "cli.py" "init_config" "open" "w"
+    ["not os.path.exists(sections_path)"]
+    ["sections_path"; "config_dir = os.path.join(target_dir, 'config')"; "sections_path = os.path.join(config_dir, 'views.rules')"] OInitStarter;
+  W "cli.py" "init_config" "open" "w"
+    ["not os.path.exists(gitignore_path)"]
+    ["gitignore_path"; "gitignore_path = os.path.join(target_dir, '.gitignore')"] OInitStarter;
+  W "report.py" "write_summary_file_vue" "path.write_text" ""
+    ["not embedded_html"]
+    ["css_path"; "output_path = Path(filepath)"; "output_dir = output_path.parent"; "css_path = output_dir / 'spending_report.css'"] OReport;
+  W "report.py" "write_summary_file_vue" "path.write_text" ""
+    ["not embedded_html"]
+    ["js_path"; "output_path = Path(filepath)"; "output_dir = output_path.parent"; "js_path = output_dir / 'spending_report.js'"] OReport;
+  W "report.py" "write_summary_file_vue" "path.write_text" ""
+    ["not embedded_html"]
+    ["data_path"; "output_path = Path(filepath)"; "output_dir = output_path.parent"; "data_path = output_dir / 'spending_data.js'"] OReport;
+  W "report.py" "write_summary_file_vue" "path.write_text" ""
+    []
+    ["Path(filepath)"] OReport;
+  W "section_engine.py" "write_default_sections" "mkdir" ""
+    []
+    ["path.parent"; "path = Path(filepath)"] ODead;
+  W "section_engine.py" "write_default_sections" "path.write_text" ""
+    []
+    ["path"; "path = Path(filepath)"] ODead;
   W "commands/init.py" "cmd_init" "open" "a"
-    ["os.path.exists(settings_path) and os.path.exists(views_rules)"; "'views_file:' not in content"] OInitAppend;
-  (* layout migration (tally update, with consent) *)
-  W "cli.py" "migrate_v0_to_v1" "makedirs" "" [] OLayout;
-  W "cli.py" "migrate_v0_to_v1" "shutil.move" "" [] OLayout;
-  W "cli.py" "migrate_v0_to_v1" "shutil.move" "" ["os.path.isdir(old_path)"] OLayout;
-  W "cli.py" "migrate_v0_to_v1" "open" "w" [] OLayout;
-  (* binary self-update *)
-  W "_version.py" "download_file" "open" "wb" [] OSelfUpdate;
-  W "_version.py" "perform_update" "dynamic.import" "" [] OSelfUpdate;
-  W "_version.py" "perform_update" "tempfile.TemporaryDirectory" "" [] OSelfUpdate;
-  W "_version.py" "perform_update" "archive.extractall" "" [] OSelfUpdate;
-  W "_version.py" "perform_update" "chmod" "" ["system != 'windows'"] OSelfUpdate;
-  W "_version.py" "perform_update" "mkdir" "" [] OSelfUpdate;
-  W "_version.py" "perform_update" "shutil.copy2" "" ["install_path.exists()"] OSelfUpdate;
-  W "_version.py" "perform_update" "unlink" "" ["system == 'windows'"; "install_path.exists()"] OSelfUpdate;
-  W "_version.py" "perform_update" "rename" "" ["system == 'windows'"; "install_path.exists()"] OSelfUpdate;
-  W "_version.py" "perform_update" "shutil.copy2" "" ["system == 'windows'"] OSelfUpdate;
-  W "_version.py" "perform_update" "shutil.copy2" "" ["not (system == 'windows')"] OSelfUpdate;
-  (* workflow *)
-  W "commands/workflow.py" "cmd_workflow" "subprocess.run" "" ["has_config"; "has_data_sources"] OSpawnRO;
-  (* unused helper *)
-  W "section_engine.py" "write_default_sections" "mkdir" "" [] ODead;
-  W "section_engine.py" "write_default_sections" "path.write_text" "" [] ODead
+    ["os.path.exists(settings_path) and os.path.exists(views_rules)"; "try: except Exception"; "'views_file:' not in content"]
+    ["settings_path"; "target_dir = os.path.abspath('.')"; "target_dir = os.path.abspath(args.dir)"; "config_dir = os.path.join(target_dir, 'config')"; "settings_path = os.path.join(config_dir, 'settings.yaml')"; "settings_path = os.path.join(target_dir, 'config', 'settings.yaml')"] OInitAppend;
+  W "commands/run.py" "cmd_run" "makedirs" ""
+    ["not (output_format == 'json')"; "not (output_format == 'markdown')"; "not (output_format == 'summary' or args.summary)"; "not (args.output)"]
+    ["output_dir"; "config_dir = os.path.abspath(args.config)"; "config_dir = find_config_dir()"; "config = load_config(config_dir, args.settings)"; "output_dir = os.path.join(os.path.dirname(config_dir), config.get('output_dir', 'output'))"] OOutDir;
+  W "commands/workflow.py" "cmd_workflow" "subprocess.run" ""
+    ["has_config"; "try: except Exception"; "has_data_sources"; "try: except Exception"]
+    ["['tally', 'discover', '--format', 'json']"] OSpawnRO
 ].
 
 Fixpoint list_eqb (a b : list string) : bool :=
@@ -377,7 +440,8 @@ Fixpoint list_eqb (a b : list string) : bool :=
   end.
 Definition wsite_eqb (a b : wsite) : bool :=
   (String.eqb (ws_file a) (ws_file b) && String.eqb (ws_func a) (ws_func b) && String.eqb (ws_kind a) (ws_kind b)
-   && String.eqb (ws_mode a) (ws_mode b) && list_eqb (ws_guards a) (ws_guards b))%bool.
+   && String.eqb (ws_mode a) (ws_mode b) && list_eqb (ws_guards a) (ws_guards b)
+   && list_eqb (ws_target a) (ws_target b))%bool.
 Definition owner_of (ws : wsite) : option owner :=
   match find (fun e => wsite_eqb ws (fst e)) accounted with Some e => Some (snd e) | None => None end.
 Definition known (ws : wsite) : bool := match owner_of ws with Some _ => true | None => false end.
@@ -395,7 +459,7 @@ Definition dead_ok (entry : string * list string) : bool :=
 (* the guarded call sites of the migration routines, exactly as the model assumes them *)
 Definition mcall_eqb (a b : mcall) : bool :=
   (String.eqb (mc_file a) (mc_file b) && String.eqb (mc_func a) (mc_func b) && String.eqb (mc_callee a) (mc_callee b)
-   && list_eqb (mc_guards a) (mc_guards b))%bool.
+   && list_eqb (mc_guards a) (mc_guards b) && list_eqb (mc_args a) (mc_args b))%bool.
 Fixpoint mcalls_eqb (a b : list mcall) : bool :=
   match a, b with
   | [], [] => true
@@ -403,13 +467,30 @@ Fixpoint mcalls_eqb (a b : list mcall) : bool :=
   | _, _ => false
   end.
 Definition expected_migration_calls : list mcall := [
+  {| mc_file := "_version.py"; mc_func := "perform_update"; mc_callee := "download_file";
+     mc_guards := ["try: except PermissionError, Exception"];
+     mc_args := ["str(zip_path)"; "asset_name = get_platform_asset_name()"; "temp_path = Path(temp_dir)"; "zip_path = temp_path / asset_name"] |};
   {| mc_file := "cli.py"; mc_func := "_check_merchant_migration"; mc_callee := "_migrate_csv_to_rules";
-     mc_guards := ["merchants_format == 'csv'"; "should_migrate"] |};
-  {| mc_file := "cli.py"; mc_func := "run_migrations"; mc_callee := "migrate_v0_to_v1"; mc_guards := ["current < 1"] |};
+     mc_guards := ["merchants_format == 'csv'"; "should_migrate"];
+     mc_args := ["merchants_file"; "config_dir"; "merchants_file = config.get('_merchants_file')"] |};
+  {| mc_file := "cli.py"; mc_func := "run_migrations"; mc_callee := "migrate_v0_to_v1";
+     mc_guards := ["current < 1"];
+     mc_args := ["config_dir"; "result = migrate_v0_to_v1(config_dir, skip_confirm)"; "config_dir = result"] |};
   {| mc_file := "commands/init.py"; mc_func := "cmd_init"; mc_callee := "_migrate_csv_to_rules";
-     mc_guards := ["os.path.exists(old_csv) and (not os.path.exists(new_rules))"; "has_rules"] |};
-  {| mc_file := "commands/init.py"; mc_func := "cmd_init"; mc_callee := "init_config"; mc_guards := [] |};
-  {| mc_file := "commands/update.py"; mc_func := "cmd_update"; mc_callee := "run_migrations"; mc_guards := ["config_dir"] |}
+     mc_guards := ["os.path.exists(old_csv) and (not os.path.exists(new_rules))"; "has_rules"];
+     mc_args := ["old_csv"; "config_dir"; "target_dir = os.path.abspath('.')"; "target_dir = os.path.abspath(args.dir)"; "config_dir = os.path.join(target_dir, 'config')"; "old_csv = os.path.join(config_dir, 'merchant_categories.csv')"] |};
+  {| mc_file := "commands/init.py"; mc_func := "cmd_init"; mc_callee := "init_config";
+     mc_guards := [];
+     mc_args := ["target_dir"; "target_dir = os.path.abspath('.')"; "target_dir = os.path.abspath(args.dir)"] |};
+  {| mc_file := "commands/run.py"; mc_func := "cmd_run"; mc_callee := "write_summary_file_vue";
+     mc_guards := ["not (output_format == 'json')"; "not (output_format == 'markdown')"; "not (output_format == 'summary' or args.summary)"];
+     mc_args := ["output_path"; "config_dir = os.path.abspath(args.config)"; "config_dir = find_config_dir()"; "config = load_config(config_dir, args.settings)"; "output_path = args.output"; "output_dir = os.path.join(os.path.dirname(config_dir), config.get('output_dir', 'output'))"; "output_path = os.path.join(output_dir, config.get('html_filename', 'spending_summary.html'))"] |};
+  {| mc_file := "commands/update.py"; mc_func := "cmd_update"; mc_callee := "run_migrations";
+     mc_guards := ["config_dir"];
+     mc_args := ["config_dir"; "config_dir = find_config_dir()"] |};
+  {| mc_file := "commands/update.py"; mc_func := "cmd_update"; mc_callee := "perform_update";
+     mc_guards := [];
+     mc_args := [] |}
 ].
 (* should_migrate is assigned only from the --migrate flag, an interactive 'y', or False *)
 Definition expected_should_migrate : list string := ["migrate"; "response == 'y'"; "False"].
